@@ -76,6 +76,9 @@ def write_rdata(b: dnsref.Builder, t: str, shape: str, rng: random.Random, tgt: 
             if shape == "hibytes" and i == k and rng.random() < 0.5:
                 s = "café über".encode()  # UTF-8 text: c3 a9 reads as a pointer to offset 937
             b.raw(bytes([len(s)]) + s)
+    elif t in ("MINFO", "RP"):
+        _name(b, shape, rng, tgt)
+        _name(b, shape, rng, tgt)
     elif t in PURE_NAME or t in ("MB", "MG", "MR"):
         _name(b, shape, rng, tgt)
     elif t in ("MX", "AFSDB", "KX"):
@@ -88,9 +91,6 @@ def write_rdata(b: dnsref.Builder, t: str, shape: str, rng: random.Random, tgt: 
         k = rng.randrange(0, 5) * 4
         ints[k: k + 4] = sp(4)
         b.raw(bytes(ints))
-    elif t in ("MINFO", "RP"):
-        _name(b, shape, rng, tgt)
-        _name(b, shape, rng, tgt)
     elif t == "SRV":
         b.raw(_low(rng, 2) + _low(rng, 2) + sp(2))
         _name(b, shape, rng, tgt)
@@ -161,9 +161,11 @@ def compare(orig: bytes, sent: list[bytes], dir_, tr, mid, labels) -> dict:
     for i, (ro, rf) in enumerate(zip(o.records(), f.records())):
         t, shape = labels[i] if i < len(labels) else (TYPE_NAME.get(ro.type, "OTHER"), "plain")
         named = dnsref.has_names(ro.type)
+        if ro.canon is None:
+            raise AssertionError(f"scenario message is not well-formed: RDATA of {t} does not parse by its layout")
         ev["rrs"].append({"t": t, "shape": shape, "named": named, "meta": eq(_rr_meta(ro), _rr_meta(rf)),
                           "raw": eq(ro.rdata, rf.rdata),
-                          "exp": eq(ro.canon, rf.canon) if ro.canon is not None and rf.canon is not None else [1, 2]})
+                          "exp": eq(ro.canon, rf.canon) if rf.canon is not None else [1, 2]})
     return ev
 
 
